@@ -568,3 +568,44 @@ const _: () = {
         }
     }
 };
+
+#[cfg(ohkami_verif)]
+impl Headers {
+    /// (verification hook) canonical dump of the **complete** internal state
+    pub fn __verif_fingerprint(&self) -> Vec<u8> {
+        let mut out = Vec::new();
+        out.extend_from_slice(&(self.size as u64).to_le_bytes());
+        self.standard.__verif_dump(&mut out, |v, out| {
+            out.extend_from_slice(&(v.len() as u32).to_le_bytes());
+            out.extend_from_slice(v.as_bytes());
+        });
+        out.push(0xFE);
+        if let Some(custom) = &self.custom {
+            out.push(1);
+            for (k, v) in custom.iter() {
+                out.extend_from_slice(&(k.len() as u32).to_le_bytes());
+                out.extend_from_slice(k.as_bytes());
+                out.extend_from_slice(&(v.len() as u32).to_le_bytes());
+                out.extend_from_slice(v.as_bytes());
+            }
+        } else {
+            out.push(0);
+        }
+        out.push(0xFE);
+        if let Some(setcookies) = &self.setcookie {
+            out.push(1);
+            for c in setcookies.iter() {
+                out.extend_from_slice(&(c.len() as u32).to_le_bytes());
+                out.extend_from_slice(c.as_bytes());
+            }
+        } else {
+            out.push(0);
+        }
+        out
+    }
+
+    /// (verification hook) the reserved size for the header block
+    pub fn __verif_size(&self) -> usize {
+        self.size
+    }
+}
